@@ -15,6 +15,12 @@ open Wm Wm.Poison
     observation:  P<n>[:<topic>|<uuid>|<payload>|<meta>|<sameObject>|<unsettledAtPublish>;…] O:<out uuids> E:<err> A:<meta after> S:<settle>
       E  nil | same | both:<Error() text>:<flags H=handler error kept, P=publish error kept>     S  - | ack | nack
     ctor <ptopic>   →  ok | err
+    pqf <same 14 fields, filter = seq:<answers>>     a stateful filter scripted as the answers ("1"/"0") it still has
+        when this message arrives (none left = refuses); observation = as pq plus F:<consultations of the filter>
+    pq2 <lvl r|h|-> <block> <14 fields of A> <14 fields of B>     two messages through ONE middleware value:
+        block = after (B after A completed) | filter | publish | handler (B runs completely while A is stopped inside
+        the filter / the poison publisher / at the end of its handler); lvl = middleware installed router-level /
+        on each handler / both stand-alone; observation = observation of A followed by observation of B
 -/
 
 def dropS (s : String) (n : Nat) : String := String.ofList (s.toList.drop n)
@@ -56,6 +62,10 @@ def contains (needle : Str) : Str → Bool
   | [] => needle.isEmpty
   | c :: rest => needle.isPrefixOf (c :: rest) || contains needle rest
 
+def parseAnswers (bits : String) : Option (List Bool) :=
+  if bits = "-" then some [] else
+  bits.toList.mapM (fun c => if c = '1' then some true else if c = '0' then some false else none)
+
 def parseFilter (s : String) : Option (HErr → Bool) :=
   match s.splitOn ":" with
   | ["all"] => some (fun _ => true)
@@ -63,6 +73,7 @@ def parseFilter (s : String) : Option (HErr → Bool) :=
   | ["none"] => some (fun _ => false)
   | ["is"] => some (fun e => match e with | .plain _ b => b | .multi _ b => b)
   | ["text", n] => (hexDec n).map (fun n e => contains n e.text)
+  | ["seq", bits] => (parseAnswers bits).map (fun a _ => a.headD false)
   | _ => none
 
 def parsePOut (s : String) : Option POut :=
@@ -92,6 +103,7 @@ structure Req where
   msg    : Msg
   res    : HRes
   opub   : Bool
+  answers : Option (List Bool)    -- kind pqf: the scripted answers of the stateful filter
 
 def parseReq (f : List String) : Option Req :=
   match f with
@@ -102,7 +114,8 @@ def parseReq (f : List String) : Option Req :=
     pure { rt := rt, ptopic := (← hexDec pt), filter := (← parseFilter fl), pub := (← parsePOut po),
            ctx := ⟨(← hexDec ct), (← hexDec ch), (← hexDec cs)⟩,
            msg := ⟨(← hexDec u), (← hexDec p), (← parseMeta m)⟩,
-           res := ⟨(← parsePairs sets), (List.range n).map outMsg, (← parseErr e)⟩, opub := opub }
+           res := ⟨(← parsePairs sets), (List.range n).map outMsg, (← parseErr e)⟩, opub := opub,
+           answers := (match fl.splitOn ":" with | ["seq", bits] => parseAnswers bits | _ => none) }
   | _ => none
 
 def showErr : Option RErr → String
@@ -228,6 +241,24 @@ def monitor (r : Req) (o : Obs) : String := Id.run do
       if !inPoison then return "violated:acked_implies_handled_or_poisoned"
   return "ok"
 
+def okLvl (s : String) : Bool := s == "r" || s == "h" || s == "-"
+def okBlock (s : String) : Bool := s == "after" || s == "filter" || s == "publish" || s == "handler"
+
+/-- the statement with a stateful filter.  `n` = observed consultations for this message, `ans` = the answers the
+    filter had left.  "An error the filter accepts" = the answer it gave; when it was (wrongly or not) asked several
+    times and the answers differ, only what holds under either reading is demanded – the message is either published
+    once and reported as success, or not published and still failing – so that nothing is demanded that the statement
+    does not say, while a message that is acked without being handled or poisoned is always a violation. -/
+def monitorF (r : Req) (ans : List Bool) (n : Nat) (o : Obs) : String :=
+  let given := (List.range n).map (fun i => (ans.drop i).headD false)
+  let first := ans.headD false
+  let asYes := monitor { r with filter := fun _ => true } o
+  let asNo := monitor { r with filter := fun _ => false } o
+  if r.res.err.isNone then asNo
+  else if given.all (· == first) then (if first then asYes else asNo)
+  else if asYes == "ok" || asNo == "ok" then "ok"
+  else (if first then asYes else asNo)
+
 def handle (line : String) : String :=
   match line.splitOn " " with
   | ["M", "ctor", t] => match hexDec t with
@@ -237,8 +268,38 @@ def handle (line : String) : String :=
     | some _ => if o = "ok" || o = "err" then "ok" else "violated:ctor"   -- the statement does not speak about construction
     | none => "bad-op"
   | "M" :: "pq" :: rest => match parseReq rest with
-    | some r => modelObs r
+    | some r => if r.answers.isNone then modelObs r else "bad-op"
     | none => "bad-op"
+  | "M" :: "pqf" :: rest => match parseReq rest with
+    | some r => if r.answers.isSome then modelObs r ++ " F:" ++ toString (consultations r.res) else "bad-op"
+    | none => "bad-op"
+  | "P" :: "pqf" :: rest =>
+    let obs := (rest.dropWhile (· != "##")).drop 1
+    match parseReq (rest.takeWhile (· != "##")), parseObs (obs.take 5), (obs.drop 5) with
+    | some r, some o, [f] =>
+      match r.answers, (if f.startsWith "F:" then (dropS f 2).toNat? else none) with
+      | some ans, some n => monitorF r ans n o
+      | _, _ => "bad-op"
+    | some _, none, _ => if obs.any (·.startsWith "E:panic") then "violated:panic" else "bad-op"
+    | _, _, _ => "bad-op"
+  | "M" :: "pq2" :: lvl :: block :: rest =>
+    match okLvl lvl && okBlock block, parseReq (rest.take 14), parseReq (rest.drop 14) with
+    | true, some a, some b =>
+      if a.answers.isNone && b.answers.isNone then modelObs a ++ " " ++ modelObs b else "bad-op"
+    | _, _, _ => "bad-op"
+  | "P" :: "pq2" :: lvl :: block :: rest =>
+    let req := rest.takeWhile (· != "##")
+    let obs := (rest.dropWhile (· != "##")).drop 1
+    match okLvl lvl && okBlock block && req.length == 28, parseReq (req.take 14), parseReq (req.drop 14),
+          parseObs (obs.take 5), parseObs (obs.drop 5) with
+    | true, some a, some b, some oa, some ob =>
+      -- every message must come out as the statement demands for it alone: the middleware keeps nothing between messages
+      match monitor a oa, monitor b ob with
+      | "ok", "ok" => "ok"
+      | "ok", vb => "violated:B:" ++ dropS vb 9
+      | va, _ => "violated:A:" ++ dropS va 9
+    | true, some _, some _, _, _ => if obs.any (·.startsWith "E:panic") then "violated:panic" else "bad-op"
+    | _, _, _, _, _ => "bad-op"
   | "P" :: "pq" :: rest =>
     match parseReq (rest.takeWhile (· != "##")), parseObs ((rest.dropWhile (· != "##")).drop 1) with
     | some r, some o => monitor r o
